@@ -115,6 +115,8 @@ func c16Run(r *mc.Report, c c16Case, finish func(digest string)) (digest string,
 			digest = c16InboundMulti(r, c, w, &node, &more, decide, viol)
 		case "out-multi":
 			digest = c16OutboundMulti(r, c, w, &node, &more, decide, viol)
+		case "out-drain":
+			digest = c16OutboundDrain(r, c, w, &node, decide, viol)
 		default:
 			digest = c16Inbound(r, c, w, &node, &peer, peerVersions, decide, viol)
 		}
@@ -455,7 +457,7 @@ func c16Samples(r *mc.Report) {
 // v1 inbound cases at limit 1, a stop of the node at every (quick: every 2nd) datagram index
 // up to a bound that exceeds every fault-free trace (later indices repeat the no-stop case).
 func c16AllCases(thorough bool) []c16Case {
-	cases := append(append(c16Cases(thorough), c16MultiCases(thorough)...), c16OutMultiCases(thorough)...)
+	cases := append(append(append(c16Cases(thorough), c16MultiCases(thorough)...), c16OutMultiCases(thorough)...), c16OutDrainCases()...)
 	maxK, step := 60, 2
 	if thorough {
 		maxK, step = 90, 1
